@@ -11,11 +11,13 @@ import importlib.abc
 import importlib.machinery
 import sys
 
-_SKIP_NAMES = ('super', 'locals', 'globals', 'vars', 'eval', 'exec', 'dir',
+_SKIP_NAMES = ('super', 'locals', 'globals', 'vars', 'eval', 'exec', 'dir', '__sx_ite__', '__sx_issym__',
                '__sx_call__', '__sx_mod__', '__sx_not__', '__sx_fstr__', '__sx_in__')
 
 
 class T(ast.NodeTransformer):
+    counter = 0
+
     def visit_Call(self, node):
         self.generic_visit(node)
         if isinstance(node.func, ast.Name) and node.func.id in _SKIP_NAMES:
@@ -51,6 +53,58 @@ class T(ast.NodeTransformer):
                 ast.Call(func=ast.Name('__sx_in__', ast.Load()),
                          args=[node.left, node.comparators[0], ast.Constant(neg)], keywords=[]), node)
         return node
+
+    # -- if-conversion: `if C: x op= E` with a symbolic C becomes x = ite(C, x op E, x) (no fork)
+    _PURE = (ast.Name, ast.Constant, ast.BinOp, ast.UnaryOp, ast.Attribute)
+
+    def _pure(self, e):
+        for n in ast.walk(e):
+            if isinstance(n, (ast.expr_context, ast.operator, ast.unaryop)):
+                continue
+            if not isinstance(n, self._PURE):
+                return False
+            if isinstance(n, ast.BinOp) and isinstance(n.op, (ast.Mod, ast.Div, ast.FloorDiv, ast.Pow, ast.MatMult)):
+                return False
+            if isinstance(n, ast.UnaryOp) and isinstance(n.op, ast.Not):
+                return False
+        return True
+
+    def visit_If(self, node):
+        ok = not node.orelse and 1 <= len(node.body) <= 3
+        if ok:
+            for st in node.body:
+                if isinstance(st, ast.AugAssign) and isinstance(st.target, ast.Name) and self._pure(st.value) and \
+                        isinstance(st.op, (ast.BitXor, ast.BitOr, ast.BitAnd, ast.Add, ast.Sub, ast.LShift, ast.RShift)):
+                    continue
+                if isinstance(st, ast.Assign) and len(st.targets) == 1 and isinstance(st.targets[0], ast.Name) and self._pure(st.value):
+                    continue
+                ok = False
+        if not ok:
+            self.generic_visit(node)
+            return node
+        T.counter += 1
+        cname = '__sxc%d' % T.counter
+        import copy
+        orig = copy.deepcopy(node)
+        self.generic_visit(orig)
+        test = self.visit(copy.deepcopy(node.test))
+        conv = []
+        for st in node.body:
+            if isinstance(st, ast.AugAssign):
+                then = ast.BinOp(ast.Name(st.target.id, ast.Load()), st.op, copy.deepcopy(st.value))
+                tgt = st.target.id
+            else:
+                then = copy.deepcopy(st.value)
+                tgt = st.targets[0].id
+            conv.append(ast.Assign([ast.Name(tgt, ast.Store())],
+                                   ast.Call(ast.Name('__sx_ite__', ast.Load()),
+                                            [ast.Name(cname, ast.Load()), then, ast.Name(tgt, ast.Load())], [])))
+        orig.test = ast.Name(cname, ast.Load())
+        new = [ast.Assign([ast.Name(cname, ast.Store())], test),
+               ast.If(ast.Call(ast.Name('__sx_issym__', ast.Load()), [ast.Name(cname, ast.Load())], []), conv, [orig])]
+        for n in new:
+            ast.copy_location(n, node)
+        return new
 
     def visit_JoinedStr(self, node):
         self.generic_visit(node)
@@ -104,6 +158,8 @@ class Finder(importlib.abc.MetaPathFinder, importlib.abc.Loader):
         d['__sx_not__'] = hooks.not_
         d['__sx_fstr__'] = hooks.fstr
         d['__sx_in__'] = hooks.in_
+        d['__sx_ite__'] = hooks.ite_
+        d['__sx_issym__'] = hooks.issym_
         d['__file__'] = origin
         LOADED[module.__name__] = dict(file=origin, sha1=hashlib.sha1(raw).hexdigest())
         exec(code, d)
